@@ -181,5 +181,9 @@ func ValidatePrime(p *saferith.Nat) error {
 	if !pMinus1Div2.Big().ProbablyPrime(1) {
 		return ErrNotSafePrime
 	}
+	// p itself must be prime as well
+	if !p.Big().ProbablyPrime(1) {
+		return ErrNotSafePrime
+	}
 	return nil
 }
